@@ -81,8 +81,8 @@ func (o Op) short() string {
 		return fmt.Sprintf("add(r%d,m%d)", o.U, o.M)
 	case "status":
 		return fmt.Sprintf("status(r%d)", o.U)
-	case "pickup":
-		return fmt.Sprintf("pickup(r%d,%d)", o.U, o.N)
+	case "pickup", "pickupf":
+		return fmt.Sprintf("%s(r%d,%d)", o.Kind, o.U, o.N)
 	}
 
 	return o.Kind
@@ -94,7 +94,7 @@ func (o Out) short() string {
 		return fmt.Sprintf("%s %d", o.Kind, o.V)
 	case "tags":
 		return fmt.Sprintf("tags%v", o.T)
-	case "bulk", "batch":
+	case "bulk", "batch", "batchfail":
 		return fmt.Sprintf("%s%v", o.Kind, o.Vs)
 	case "query":
 		return fmt.Sprintf("query%v", o.R)
